@@ -456,12 +456,14 @@ func (c *Classifier) multipleMatch(unknown string) *pq.Queue {
 	wg.Add(len(kvals))
 	for _, known := range kvals {
 		go func(known *knownValue) {
+			// The check must be made under the same lock as the assignment:
+			// concurrent MultipleMatch calls share the known values.
+			c.muValues.Lock()
 			if known.set == nil {
 				k := searchset.New(known.normalizedValue, searchset.DefaultGranularity)
-				c.muValues.Lock()
 				c.values[known.key].set = k
-				c.muValues.Unlock()
 			}
+			c.muValues.Unlock()
 			m.findMatches(known)
 			wg.Done()
 		}(known)
